@@ -10,7 +10,7 @@ CONSTANTS MaxFields, Pairs   \* Pairs: emit two-field shapes too
 GoTypes == {"string", "*int", "[]uint8", "bool", "float64", "[]string", "*[]string", "time.Time", "*uint64",
             "named-int", "*named-string", "named-strings", "*[]uint8", "*time.Time", "*bool", "*string"}   \* user-defined types whose underlying type is supported
 JsonTags == {"a", "b", "", "id", "~"}   \* "~": json:"" (the key is there, the name is empty)
-ApiTags == {"", "attr", "rel", "rel,", "rel,tt", "rel,tt,inv", "rel,a,b,c", "other", "rel,,inv"}
+ApiTags == {"", "attr", "rel", "rel,", "rel,tt", "rel,tt,inv", "rel,a,b,c", "other", "rel,,inv", "attr,omitempty"}
 IdVariants == {"ok", "noapi", "absent", "int", "jsonother", "nojson"}
 F(g, j, a) == [gotype |-> g, json |-> j, api |-> a]
 FieldSpecs == { F(g, j, a) : g \in GoTypes, j \in JsonTags, a \in ApiTags }
@@ -24,6 +24,9 @@ Init == \/ \E v \in IdVariants : sh = [id |-> v, fields |-> <<>>]
         \* two tagged fields with the same json name, of the same or of different kinds, in both orders
         \/ \E a1 \in {"attr", "rel,tt"}, a2 \in {"attr", "rel,tt"}, g1 \in {"string", "*int"}, g2 \in {"string", "[]string"} :
               sh = [id |-> "ok", fields |-> <<F(g1, "a", a1), F(g2, "a", a2)>>]
+        \* a field without api tag that reuses the json name of a tagged one, in both orders
+        \/ \E a1 \in {"attr", "rel,tt"}, g1 \in {"string", "*int", "[]string"}, g2 \in {"string", "*int", "[]string", "bool"}, first \in BOOLEAN :
+              sh = [id |-> "ok", fields |-> IF first THEN <<F(g1, "a", a1), F(g2, "a", "")>> ELSE <<F(g2, "a", ""), F(g1, "a", a1)>>]
         \/ (Pairs /\ \E f \in FieldSpecs, g \in FieldSpecs :
               (f.api # "" /\ g.api # "" /\ f.json \in {"a", ""} /\ g.gotype \in {"string", "[]string", "*int"}) /\
               sh = [id |-> "ok", fields |-> <<f, g>>])
